@@ -419,6 +419,12 @@ def newSum (asts : List R) : Except String R :=
   | collector :: moreAggs => do
     let rest := termsOf asts
     if isMinMax collector then throw "SympyApi: Cannot express addition with min/max aggregate"
+    -- fix (known_findings.json `fixed:`): the result is a #sum; a #sum+ can only join it if its weights are non-negative numbers
+    let sumPlusBad : Atom → Bool := fun a => match a with
+      | .bagg _ _ _ .sump es _ => !(es.all fun e => match e.1 with | .sym (.num n) :: _ => n ≥ 0 | _ => false)
+      | _ => false
+    if (collector :: moreAggs).any sumPlusBad then
+      throw "SympyApi: Cannot express addition with a #sum+ whose weights may be negative"
     let more ← tagAggs 1 moreAggs
     let n := (collector :: moreAggs).length
     let restElems : List BAggElem := (enumFrom 0 rest).map fun (i, t) => ([t, aggIdent (n + i)], [])
